@@ -953,5 +953,6 @@ def run(ctx):
     return common.finish_with_proof(ctx, proof,
         rule="coverage: each mutating CLI command x {default, external} staging root, fault free and with EIO/ENOSPC/EACCES, SIGINT, SIGKILL at sampled "
              "(thorough: all) system calls; exclusion: pairs of commands (same / other object) x hold points of A (before the acquire, after it, sampled "
-             "inside, at the unlink); races of 2-4 commands; distinct = distinct (command, injection point, outcome) / (pair, hold point); "
+             "inside, at the removal of the lock file on entry and on exit, at every mutating call after a release if there is one) with B in "
+             "{commit, cp, reset <path>, upgrade} at the release points; races of 2-4 commands; distinct = distinct (command, injection point, outcome) / (pair, hold point); "
              "non-trivial = the run touched the object (coverage), a lost race, every exclusion case")
